@@ -9,6 +9,6 @@ CONSTANTS
  Strict = TRUE
  Mode = "byz"
  HonP <- PolysConst
- DevP <- PolysConst
+ DevP <- PolysOne
 INVARIANTS Holds Interp
 CHECK_DEADLOCK FALSE
